@@ -296,6 +296,10 @@ theorem abs_applyFn (t : Table) (f : Fn) : t.applyFn f = (abs t).applyFn f := by
   unfold applyFn Recs.applyFn
   simp only [abs, rows, mapE_map, get?_row]
 
+theorem abs_applyFnK (t : Table) (key : String) (f : Fn) : t.applyFnK key f = (abs t).applyFnK key f := by
+  unfold applyFnK Recs.applyFnK
+  simp only [abs, rows, mapE_map, get?_row]
+
 /-- all requested columns exist: `mapE getColE` returns them -/
 theorem mapE_getColE_ok (t : Table) (ks : List String) (h : ks.all t.cols.contains = true) :
     mapE t.getColE ks = .ok (ks.map t.getCol) := by
